@@ -12,6 +12,7 @@ fn run_job(job: &Sexp) -> String {
         "ssa" => circ::job_ssa(job),
         "reg" => circ::job_reg(job),
         "regalloc" => circ::job_regalloc(job),
+        "compile" => circ::job_compile(job),
         k => format!("(unknown-kind {k})"),
     }
 }
